@@ -81,7 +81,7 @@ impl<S: McSystem> McSystem for Diff<S> {
     }
 }
 
-fn hist_sys<A: Tok, B: Tok, C: Tok>(alphabet: Alphabet, n: usize, perturb: bool) -> Hist<A, B, C> {
+fn hist_sys<A: crate::kinds::Kind, B: crate::kinds::Kind, C: crate::kinds::Kind>(alphabet: Alphabet, n: usize, perturb: bool) -> Hist<A, B, C> {
     Hist { alphabet, prop: hist::Prop::C20, n_create: n, reg: [RegPath::Register, RegPath::SetupRead, RegPath::SetupWrite], triples: false, perturb, note_prefix: format!("{{\"engine\":\"mc-det\",\"property\":\"C20\",\"part\":\"hist-{:?}\",\"ops\":", alphabet), _p: PhantomData }
 }
 
